@@ -629,6 +629,11 @@ def gen_calldep_scripts(tier, seed, variant):
         else:
             out.append(gen_map.make_script(rng, f"x{seed}_{i}", calldep=rng.choice(["hash", "hash_near", "hash_near", "eq", "both", "both_near"]), many=(i % 2 == 0),
                                            nkeys=rng.choice([4, 6, 12, 24, 40])))
+    # tables built lawfully up to exact capacity with tombstones, THEN the hasher turns inconsistent:
+    # in-place rehash / resize / lookups with every element landing somewhere new
+    for i in range(n // 2):
+        out.append(gen_map.make_run_script(rng, f"xu{seed}_{i}", switch_rule=rng.choice(
+            ["hashrule calldep", "hashrule calldep", "hashrule calldep_near", "hashrule calldep;eqrule calldep", "eqrule calldep"])))
     return "".join(out)
 
 def gen_table_scripts(tier, seed, variant):
